@@ -125,6 +125,17 @@ func CanonTree() [][]byte {
 			}
 		}
 	}
+	// every top byte with bytes 1..30 = 0xff and the first byte around the boundary 0xed
+	for _, f := range []byte{0x00, 0xec, 0xed, 0xee, 0xff} {
+		for l := 0; l < 256; l++ {
+			b := make([]byte, 32)
+			for i := 1; i < 31; i++ {
+				b[i] = 0xff
+			}
+			b[0], b[31] = f, byte(l)
+			s.Add(b)
+		}
+	}
 	special := [][]byte{
 		withSign(big.NewInt(1), 1),
 		withSign(new(big.Int).Sub(ref.P, big.NewInt(1)), 1),
@@ -257,6 +268,9 @@ func FieldStrings(seed int64, ngeneric int, extra []*big.Int, allHigh bool) [][]
 		b := mc.Bytes(seed, "field-phi", i, 32)
 		b[31] &= 0x7f
 		vals = append(vals, ref.FromLE(b))
+		if i < 6 {
+			vals = append(vals, ref.FNeg(ref.FromLE(b))) // negated twin: same Elligator image
+		}
 	}
 	for i, v := range vals {
 		if v.Sign() < 0 || v.Cmp(two255) >= 0 {
@@ -387,4 +401,48 @@ func Mul121666Seams(full bool) []Seam {
 		}
 	}
 	return out
+}
+
+// Guard runs a preparation step that calls library code outside any Par
+// callback.  A panic of the library there is recorded as an ordinary violation
+// (key "panic/<sub>") instead of aborting the harness; ok is false then and the
+// caller skips the sub-spaces that depend on the step.
+func Guard(c *mc.Ctx, sub string, f func()) (ok bool) {
+	msg := ""
+	func() {
+		defer func() {
+			if r := recover(); r != nil {
+				buf := make([]byte, 3072)
+				m := runtime.Stack(buf, false)
+				msg = fmt.Sprintf("panic while preparing %s: %v\n%s", sub, r, buf[:m])
+			}
+		}()
+		f()
+	}()
+	c.Par(sub, 1, func(w *mc.W, i int) {
+		w.Eval(sub, false)
+		if msg != "" {
+			w.Fail("panic/"+sub, msg, nil)
+		}
+	})
+	return msg == ""
+}
+
+// Guarded hands a byte string over the way an untrusted caller might: as a
+// sub-slice of a larger buffer with spare capacity, surrounded by a guard
+// pattern.  intact reports whether the whole buffer (guards and the bytes
+// handed over) is unchanged.
+func Guarded(b []byte) (in []byte, intact func() bool) {
+	const g = 24
+	buf := make([]byte, g+len(b)+g)
+	for i := range buf {
+		buf[i] = 0xa5 ^ byte(i)
+	}
+	copy(buf[g:], b)
+	orig := append([]byte{}, buf...)
+	in = buf[g : g+len(b)] // cap reaches into the trailing guard
+	if b == nil {
+		in = nil
+	}
+	return in, func() bool { return string(buf) == string(orig) }
 }
